@@ -29,6 +29,16 @@ claim("C16", "other",
       "Decides the grammar facts the statement names: operator exposure per operand position (not > and > or, right grouping, brackets reset), double-negation fold in the not action, string-literal action == strconv.Unquote(whole match), no earlier value alternative can start with a quote (choice shadowing), keyword boundaries, layout rule is whitespace only. Does NOT decide tree equality over all renderings (no printer exists in the repository).",
       "§4 C16", "operator-exposure and FIRST/FOLLOW analyses on the rule table + typed-AST checks of three actions")
 
+claim("C03", "other",
+      "Abstract interpretation of the dispatcher over the operand-outcome domain {true,false,error}^2 for every connective: returned pair, which operands are evaluated, their order and the datum/options forwarded are compared with the statement's 3x3 tables; plus: the tree evaluated is the tree parsed (no write to / construction of syntax-tree nodes outside the parser's actions; Evaluator.ast written once from grammar.Parse and handed unchanged to the dispatcher). By induction on depth this is the whole property given sub-results.",
+      "§4 C03", "path-sensitive abstract execution over the outcome domain (SSA, helpers inlined) + store/alloc census on syntax-tree types")
+claim("C04", "other",
+      "For each of the eight operator constants and each scenario {lookup error, absent key, present x matcher true/false/error}: the positive arm forwards the matcher's pair, the negated arm is its exact complement (same matcher, same arguments, (false, err) on error), an absent key yields NotPresentDisposition() for every operator, the disposition table is complementary per pair, and `contains`/`not contains` parse to the constants of `in`/`not in`. Does not decide that the positive matcher itself is right (C02).",
+      "§4 C04", "abstract execution of the match dispatcher per operator constant; constant-table extraction; constant inference on grammar operator rules")
+claim("C05", "other",
+      "Disposition table == documented table; value lookup classified path by path (symbolic execution with struct-field memory model, map-parent helper inlined): not-present only on {ErrNotFound on the final path, no unknown value, >=2 parts, parent looked up with the same tag name/hook, parent kind Map}; unknown value substitutes exactly and first; other errors stay errors; both consumers honour not-present before anything else; quantifier absent => Op==ALL. Does not decide which lookups pointerstructure reports as ErrNotFound.",
+      "§4 C05", "path-sensitive symbolic execution of the lookup + constant-table extraction + field-read census")
+
 def main():
     checks, nas = [], []
     for id in sorted(P):
